@@ -11,25 +11,35 @@ def driver_args(tier, seed, phase):
     return []
 
 
-RULE = ("the real fallback plugin (fallback.Init over scripted primary/secondary executables) under 24 schedules enforced "
+RULE = ("the real fallback plugin, built as the loader builds it (args map -> utils.WeakDecode -> fallback.Init over scripted "
+        "primary/secondary executables), under 24 schedules enforced "
         "through the verif schedule points (primary parked at 'mid', secondary parked at 'ready'/'send', executables released "
         "on recorded events, threshold 60 s = cannot fire or 20 ms = may fire any time, caller cancel, 40 ms deadline) x all "
-        "3x3 outcomes x always_standby on/off x repeats, then seeded random picks biased to both-answer; observed: which "
+        "3x3 outcomes x always_standby on/off x repeats, then seeded random picks biased to both-answer; the configuration path: "
+        "threshold unset/0/negative/1/50/100/499/500/501/800/60000 ms (+ random values) x always_standby, observed = the duration "
+        "the threshold timer is armed with and the standby flag in the constructed plugin; two coarse end-to-end timing cases "
+        "(threshold 50 ms configured, secondary started/released within 400 ms, best of three); six two-call sequences that first "
+        "let a pooled threshold timer expire unreceived and then check a within-threshold call; observed in scheduled calls: which "
         "worker's answer / ErrFailed / context error came back and which schedule points had been reached at that moment; "
         "a case is non-trivial when always_standby is on with both workers answering, the threshold is short, or the "
-        "caller's context ends; distinct = distinct Gallina literal (repeats with the same observation collapse)")
+        "caller's context ends, or a positive threshold is configured; distinct = distinct Gallina literal (repeats with the same "
+        "observation collapse)")
 ASSUMPTIONS = [
     "Go channel semantics as modelled: buffered FIFO channel, close is seen by every receiver, select takes any ready case",
     "the primary and secondary executables return (they run under a deadline context); their outcome is a parameter",
-    "time.Timer fires no earlier than its duration (the 60 s threshold does not fire during a case); a timer from pkg/pool behaves like a fresh timer",
+    "time.Timer fires no earlier than its duration (the 60 s threshold does not fire during a case); a timer from pkg/pool behaves like a fresh timer "
+    "(exercised by the pooled-timer sequences of the driver, not proved)",
     "merging a goroutine-local step (Exec returning, reading alwaysStandby / r) with the following shared statement loses no interleaving",
 ]
 TRUSTED_BASE = [
     "hand-written model coq/Model/Fallback.v tied to plugin/executable/sequence/fallback/fallback.go doFallback by "
     "(a) Gen/FallbackFacts.v regenerated from the AST on every run: order of respChan<-r / close(primDone), order of "
-    "close(primFailed) / respChan<-nil, capacity of respChan, collection rounds, cases of the secondary's two selects, and "
+    "close(primFailed) / respChan<-nil, capacity of respChan, collection rounds, cases of the secondary's two selects, the "
+    "statements of newFallbackPlugin that compute fastFallbackDuration from args.Threshold translated into the Gallina function "
+    "fallback_effective_threshold (proved equal to Model.Fallback.effective_threshold), the source of alwaysStandby, and "
     "(b) differential execution under enforced schedules (Judge.C20.agree explores the same gated transition system the theorems are about)",
-    "goroutine identification in the driver via runtime.Stack (maps a schedule point to its case)",
+    "goroutine identification in the driver via runtime.Stack (maps a schedule point to its case); reflection to read the "
+    "unexported fields fastFallbackDuration / alwaysStandby of the constructed plugin",
 ]
 LEVEL_TEXT = ("Theorems in coq/Properties/C20.v, for all 3x3 worker outcomes, always_standby on/off, timer/deadline/context may-or-may-not "
               "fire, and ALL interleavings of primary, secondary, collector and those events (finite state space: 2 workers, channel "
@@ -37,7 +47,9 @@ LEVEL_TEXT = ("Theorems in coq/Properties/C20.v, for all 3x3 worker outcomes, al
               "threshold; secondary's answer only if the primary failed or threshold/deadline passed first; the first queued answer wins; "
               "ErrFailed iff both fail; no-standby secondary not started before primFailed/timer; standby secondary released only by a "
               "signal and discarded when the primary is in time; context error only/at once when the context ended; no deadlock, finite "
-              "runs, workers finish, channel never blocks. The original statement order is refuted (F8, fixed).")
+              "runs, workers finish, channel never blocks. The threshold the timer is armed with is the configured number of milliseconds "
+              "whenever that is positive and the 500 ms default otherwise (function regenerated from newFallbackPlugin's statements). "
+              "The original statement order is refuted (F8, fixed).")
 LEVEL_NOTE = ("Trusted: Coq kernel + vm_compute; hand-written model tied to the code by Gen/FallbackFacts.v and the scheduled differential "
               "run; Go channel/select/timer semantics as modelled; executables return. The workers' deadline context (makeDdlCtx) also "
               "releases a standby secondary: 'slower than the threshold' is proved as 'threshold timer or workers' deadline fired before "
